@@ -148,6 +148,10 @@ def dispatch_rule(check, P):
         ("grbl work position", "<Run|WPos..", [[("WPos", Const("4,5,6"))]], {"X": 4.0, "Y": 5.0, "Z": 6.0}),
         ("probe report", "[PRB:..", [[("PRB", Const("1.0,2.0,-3.5"))]], {"X": 1.0, "Y": 2.0, "Z": -3.5}),
         ("two reports in a row", "X:..", [[("X", a)], [("X", b), ("Y", c)]], {"X": fl(b), "Y": fl(c)}),
+        ("machine and work position repeated in one status", "<Idle,MPos..", [[("MPos", Const("1,2,3")), ("WPos", Const("4,5,6"))]],
+         {"X": 1.0, "Y": 2.0, "Z": 3.0}),
+        ("letter repeated through FS in one status", "<Run|F..", [[("F", a), ("FS", Const("640,9000"))]], {"F": fl(a), "S": 9000.0}),
+        ("letter repeated through MPos in one status", "<Run|Z..", [[("Z", a), ("MPos", Const("1,2,9"))]], {"Z": fl(a), "X": 1.0, "Y": 2.0}),
         ("multi-letter key outside a status is ignored", "FS:..", [[("FS", Const("1,2")), ("T0", a)]], {}),
     ]
     n = 0
